@@ -264,6 +264,9 @@ def verify_certificate(
                 )
 
             raise AlertBadCertificate(errmsg) from exc
+        except ValueError as exc:
+            # e.g. a subjectAltName extension which cannot be parsed
+            raise AlertBadCertificate(str(exc)) from exc
 
     # load CAs
     store = crypto.X509Store()
